@@ -78,8 +78,15 @@ pub fn parse_xref_stream_and_trailer(lexer: &mut Lexer, resolve: &impl Resolve) 
         xref_stream.info.clone()
     };
 
+    // Decode without the stream cache: it is keyed by reference only, and an incremental update may
+    // store its cross-reference stream under the object number the previous revision used for its own.
+    let raw_data = t!(xref_stream.raw_data(resolve));
     let xref_stream = t!(Stream::<XRefInfo>::from_primitive(Primitive::Stream(xref_stream), resolve));
-    let mut data_left = &*t!(xref_stream.data(resolve));
+    let mut data = raw_data.to_vec();
+    for filter in xref_stream.filters.iter() {
+        data = t!(crate::enc::decode(&data, filter));
+    }
+    let mut data_left = &data[..];
     
     let width = &xref_stream.w;
 
